@@ -451,7 +451,9 @@ func (e *Engine) appendBuiltin(st *State, s *SliceV, t Value, elem types.Type, s
 				continue
 			}
 			lmax, lok := e.lenBound(st, sa)
-			if lok && nmax >= 0 && lmax+nmax <= 4096 && dstBig == nil && !tv.big {
+			_, lc := sa.Len.ConstInt()
+			_, nc := n.ConstInt()
+			if lok && nmax >= 0 && (lmax+nmax <= 4096 || (lc && nc && lmax+nmax <= 1<<20)) && dstBig == nil && !tv.big {
 				total := lmax + nmax
 				tvals := make([]Value, nmax)
 				for k := 0; k < nmax; k++ {
